@@ -348,7 +348,15 @@ def r7(ctx: Context) -> None:
             raise AnalysisError(f"anchor-vanished: module {modname}")
         for f in [x for x in repo.all_functions() if x.module is m]:
             for c in calls_in(f.node):
-                if not (isinstance(c.func, ast.Attribute) and isinstance(c.func.value, ast.Attribute) and c.func.value.attr == "client_data_store"):
+                if not isinstance(c.func, ast.Attribute):
+                    continue
+                recv = c.func.value
+                if isinstance(recv, ast.Name):  # a local bound to the component: `cds = self.app.client_data_store`
+                    from .c01 import _reaching_values
+
+                    vals = _reaching_values(f, recv.id)
+                    recv = vals[0] if len(vals) == 1 else recv
+                if not (isinstance(recv, ast.Attribute) and recv.attr == "client_data_store"):
                     continue
                 if c.func.attr == "serialize_arguments":
                     n += 1
